@@ -55,6 +55,9 @@ func (cl Serializer) DecodeDnsResponse(msg *dns.Msg) (Response, error) {
 // DecodeDnsResponse will take a DNS message and decode it into one of the DNS response object
 func (cl Serializer) DecodeDnsResponseWithParams(msg *dns.Msg, downstream enc.Encoder) (Response, error) {
 	data := util.UnwrapDnsResponse(msg, cl.Domain)
+	if len(data) == 0 {
+		return nil, errors.Errorf("Invalid response from server. No data in the answer section")
+	}
 	for _, c := range Commands {
 		if c.IsOfType(data) {
 			req := c.NewResponse()
